@@ -189,6 +189,35 @@ func runTotalLoops(x *Ctx, which string) {
 					return "what is stored is not the statement decoded from the element of this iteration"
 				})
 		}
+		// and the loop visits every element: it counts from 0 to the node's own Length(), or steps the node's list
+		// iterator until it is done (a bound clamped to a constant drops the statements beyond it without an error)
+		if f := x.fn("C14.R3", "pkg/policy.statementsFromIPLD"); f != nil {
+			okB, got := false, ""
+			for _, la := range loopsIn(f) {
+				l := la.L
+				if l.IV != nil && l.Start == 0 && l.Bound != nil {
+					bt := paths.DetachedTerm(l.Fn, l.Bound)
+					if la.Sub != nil {
+						bt = bt.Subst(la.Sub)
+					}
+					b := stripConv(bt).String()
+					got += b + " "
+					if strings.HasPrefix(b, "invoke[") && strings.HasSuffix(b, "Node.Length](arg1)") {
+						okB = true
+					}
+				}
+			}
+			if !okB {
+				for _, b := range f.Blocks {
+					for _, in := range b.Instrs {
+						if c, ok := in.(*ssa.Call); ok && c.Call.IsInvoke() && c.Call.Method.Name() == "Done" && strings.HasSuffix(c.Call.Value.Type().String(), "ListIterator") {
+							okB = true
+						}
+					}
+				}
+			}
+			x.C.Obl("C14.R3", "range:statementsFromIPLD", x.pos(f), "the decoding loop runs over every element of the list node (0 .. node.Length(), or its list iterator)", okB, "loops found with bounds: "+got)
+		}
 	case "C12":
 		if f := x.fn("C12.R3", selPkg+"resolve"); f != nil {
 			totalLoop(x, "C12.R3", "total:map-iterator", f, "the iterator segment collects every value of a map: each step of the map iterator that does not fail adds the value it returned to the list",
